@@ -222,11 +222,11 @@ def _construct_internal_shapes(
     if internal_shapes is None:
         internal_shapes = {}
     for f in pipeline.functions:
-        if f.output_name in internal_shapes:
-            continue
         if f.internal_shape is None:
             continue
         for output_name in at_least_tuple(f.output_name):
+            if output_name in internal_shapes:
+                continue
             internal_shapes[output_name] = f.internal_shape
     if not internal_shapes:
         return None
